@@ -202,9 +202,10 @@ PROPS["C01"] = {
     "model_is_spec": ["scan "],
     "required_theorems": ["tables_eq", "infoFieldNum_eq", "unguarded_are_mandatory", "dense_sees_message_only",
                           "elements_read_only_found_iterators", "block_params_reset", "fresh_queue_per_block", "delta_roundtrip",
-                          "dense_no_info_defaults", "no_info_defaults", "file_is_blockwise"],
+                          "dense_no_info_defaults", "no_info_defaults", "file_is_blockwise",
+                          "decode_encode_dense", "decode_encode_way", "decode_encode_rel"],
     "technique": "Lean 4 format model of OSM PBF decoding (delta columns, nano = offset + granularity*raw, millis = date_granularity*raw, keys_vals, format defaults) run against the real scanner on files written by the harness's own protobuf writer; theorems: the decoder's cached column iterators never leak from block to block (bookkeeping tables regenerated from scanDenseNodes/extractDenseNodes, all cache contents x all messages), per-block parameter reset, way/relation iterators read only under their found-flags, delta coding round trip, format defaults",
-    "level_text": "Specification = an executable Lean model of what a PBF file encodes at the level of its protobuf messages. Correspondence: the harness writes valid files with its own protobuf writer (nothing from the library or generated code) from structured descriptions - every optional part independently present/absent, non-default granularity/offsets/date granularity, raw/zlib, permuted field orders, consecutive blocks differing in their columns, decoder counts 1..8 - scans them with osmpbf.Scanner and compares header and every field of every object with the model, coordinates to 1e-10 degrees. Machine-checked: for every content of the decoder's iterator cache and every dense message, what extractDenseNodes reads is exactly the message's own columns (tables regenerated from the source on every run); parameters and string table are cleared per block; way/relation iterators are read only when this message set them; delta coding is lossless; absent Info / DenseInfo decode to zero metadata and visible=true; a file's objects are its blocks' objects, blockwise.",
+    "level_text": "Specification = an executable Lean model of what a PBF file encodes at the level of its protobuf messages. Correspondence: the harness writes valid files with its own protobuf writer (nothing from the library or generated code) from structured descriptions - every optional part independently present/absent, non-default granularity/offsets/date granularity, raw/zlib, permuted field orders, consecutive blocks differing in their columns, decoder counts 1..8 - scans them with osmpbf.Scanner and compares header and every field of every object with the model, coordinates to 1e-10 degrees. Machine-checked: for every content of the decoder's iterator cache and every dense message, what extractDenseNodes reads is exactly the message's own columns (tables regenerated from the source on every run); parameters and string table are cleared per block; way/relation iterators are read only when this message set them; delta coding is lossless; absent Info / DenseInfo decode to zero metadata and visible=true; a file's objects are its blocks' objects, blockwise; and decode o encode = meaning for EVERY list of dense nodes, every way and every relation (an encoder in Lean writes all columns, delta coded, keys_vals zero-delimited; the format model decodes it back to exactly the ids, metadata, coordinates offset+granularity*raw, tags and members in order - unbounded sizes, by induction).",
     "level_note": "Trusted: Lean kernel; the fact extractor; protoscan / google.golang.org/protobuf wire decoding and zlib (exercised, not modelled); the harness's writer. The arithmetic of extractDenseNodes/scanWays/scanRelations (delta accumulation, coordinate formula, string-table lookups) is tied to the model by the correspondence check, not by translation.",
     "design_ref": "DESIGN.md §5 C01",
     "trusted_base": ["protoscan / protobuf wire decoding, zlib", "harness protobuf writer harness/pbfgen.go"],
